@@ -225,22 +225,23 @@ CLAIMS = {
              "subset plus random larger pairs, with the Lean Spec predicates on the implementation's outputs.",
         note=COMMON_NOTE + "OPEN statements are listed in the evidence (open_statements).",
         tech="Lean 4 theorems on a relational model + exhaustive small-universe differential correspondence"),
-    "C16": dict(level=TV, ref="§7 C16",
-        text="23 kernel-checked theorems about the model of blend: linear_value (out = sum w_j v_j with scalar "
+    "C16": dict(level=PV, ref="§7 C16",
+        text="PARTIAL (the statistical clause 'follows the weights' and numpy's RNG are outside the model; everything structural and algebraic is proved). 29 kernel-checked theorems, none open, about the model of blend: linear_value (out = sum w_j v_j with scalar "
              "broadcast), linear_convex, linear_agree, percell_alignment, global/list/dict weight normalisation, "
-             "mixture_membership for EVERY index vector, mixture_scalar_passthrough, blend_structure, and ten refusal "
-             "theorems; one composition statement OPEN. numpy's RNG draws are captured in-process and handed to the "
+             "mixture_membership for EVERY index vector, mixture_scalar_passthrough, blend_structure, "
+             "blend_value_composed, ten refusal theorems and Spec bridges. numpy's RNG draws are captured in-process and handed to the "
              "model as parameters; 'follows the weights' is statistical and outside the model. Correspondence: dumps "
              "(exact on dyadic data) for 1-4 triangles x all weight forms x both methods x seeds, Spec membership on the "
              "implementation's output, seed reproducibility, degenerate weights.",
         note=COMMON_NOTE + "Outside the model: numpy RNG stream, the statistical clause 'follows the weights'; relative "
              "tolerance 2^-40 only where weights=None with three triangles (1/3).",
         tech="Lean 4 theorems over Q on a blend model with the RNG draws as parameters + differential correspondence"),
-    "C17": dict(level=TV, ref="§7 C17",
-        text="18 kernel-checked theorems about the structural core of the resamplers: reimposeRank_order / _perm "
+    "C17": dict(level=PV, ref="§7 C17",
+        text="PARTIAL (resampling distributions, maximum-entropy quantile arithmetic and the mean/variance match of moment_match are statistical and outside the model; the structural content is proved). 26 kernel-checked theorems, none open, about the structural core of the resamplers: reimposeRank_order / _perm "
              "(rank re-imposition used by maximum-entropy bootstrap and moment_match), develop_first_unchanged, "
              "develop_coords_fields, bootstrap_count, thin_same_positions, thin_scalars_untouched, thin_eq_self, "
-             "thin_error, momentMatch_structure; two composition statements OPEN. RNG draws are parameters. "
+             "thin_error, momentMatch_structure, momentMatch_other_fields, bootstrap_structure for EVERY factor table and "
+             "draw vector, Spec bridges. RNG draws are parameters. "
              "Correspondence: Spec predicates on implementation outputs (structure, bootstrap=i detail, first cell "
              "unchanged, rank order, thin index consistency, same seed same output).",
         note=COMMON_NOTE + "Outside the model (checked numerically in Python only, labelled in the evidence): resampling "
